@@ -61,7 +61,8 @@ class World:
         world = self
 
         def sim_id(o: Any) -> int:
-            return world.cur_alloc._id(o, grc(o) - 1)
+            rc = grc(o) - 1  # evaluated before `o` is pushed as a call argument
+            return world.cur_alloc._id(o, rc)
 
         return sim_id
 
